@@ -114,6 +114,8 @@ def case_roundtrip(case, col=None):
     units = {k: (_mag(tuple(v)) if isinstance(v, (tuple, list)) else v) for k, v in case["units"].items()}
     if nit == "Decimal":
         units = {k: (Decimal(v.numerator) / Decimal(v.denominator) if isinstance(v, Fraction) and v.denominator in (2, 10) else (v if isinstance(v, int) else int(v) or 1)) for k, v in units.items()}
+    if any(not isinstance(e, int) and env.R().resolve_spelling(n).factor < 0 for n, e in units.items()):
+        raise Skip("fractional_power_of_negative_valued_unit")  # e.g. electron_g_factor ** (1/3) is not a real number
     m = _mag(case["m"])
     if nit != "float" and isinstance(m, float):
         m = env.NIT[nit](str(m))
